@@ -445,6 +445,11 @@ func canon(b *strings.Builder, v interface{}) {
 		}
 		b.WriteString("}")
 	case []interface{}:
+		if x == nil {
+			// a nil slice is not the empty list: it marshals to null
+			b.WriteString("nil-slice")
+			return
+		}
 		b.WriteString("[")
 		for i, e := range x {
 			if i > 0 {
